@@ -252,10 +252,12 @@ add(
     "single- and multi-fidelity) through the protocol driver, and failing / externally stopped jobs under the real Tuner over the scripted "
     "back-end with max_failures 0..5. Oracle: no scheduler call raises after a failure, no failed trial resumed, failed configuration not "
     "re-suggested, other trials' pending evaluations / rung entries / bracket slots unchanged across on_trial_error, exactly one "
-    "on_trial_error per failed run, failure limit enforced with an error naming a failed trial. 2e4 histories + 480 GP + 6e3 Tuner runs quick.",
-    "Fault positions are generated (Hypothesis), complete enumeration only in C05's small systems. Three listed known findings "
+    "on_trial_error per failed run, failure limit enforced with an error naming a failed trial. 1.4e4 histories + 480 GP + 6e3 Tuner runs quick. "
+    "In addition a complete enumeration of a small scope: per model-free family, two deterministic schedules x 2 seeds x 2 worker counts, every "
+    "set of <= 2 (thorough <= 3) failure placements on a (trial) x (report index over the trial's life) grid: 1.1e4 quick, 2.1e5 thorough.",
+    "Fault positions are enumerated completely only inside the stated small scope; beyond it they are generated (Hypothesis). Three listed known findings "
     "(synchronous Hyperband promotes failed trials when too few valid results remain; two DEHB crashes) are excluded and counted.",
-    "property-based testing with fault injection (Hypothesis choice tape places failures in generated histories): invariants before/after the fault",
+    "property-based testing with fault injection (Hypothesis choice tape places failures in generated histories) + complete enumeration of small fault plans: invariants before/after the fault",
     "DESIGN.md 6/C13",
 )
 
